@@ -211,6 +211,9 @@ def run(ctx):
         judge(ctx, matcher, flt, md, 'random')
 
     # ---- one filter object used, modified in place, used again (a script doing query['customer'] = next_customer) ---------------
+    main_rng = rng
+    import random as _random
+    rng = _random.Random(ctx.seed * 7919 + ctx.shard + 4211)      # (its own stream: the parts below keep the programs they always had)
     for i in range(ctx.budget(400, 20000)):
         flt = {k: gen_filter_value(rng) for k in rng.sample(['k', 'j', 'm'], rng.randrange(1, 3))}
         md = {}
@@ -235,6 +238,7 @@ def run(ctx):
                     flt['m'] = None
             judge(ctx, matcher, flt, md, 'reused-filter-object-after-change')
             ctx.count('matches_with_a_filter_object_changed_in_place')
+    rng = main_rng
 
     # ---- listings through every cassette --------------------------------------------------------------
     nl = ctx.budget(12, 2000)
